@@ -6,6 +6,7 @@ import (
 	"embed"
 	"encoding/json"
 	"fmt"
+	"math/rand/v2"
 	"regexp"
 	"sort"
 	"strings"
@@ -28,20 +29,32 @@ type c03 struct{ fw.Base }
 func init() { fw.Register(c03{}) }
 
 func (c03) ID() string { return "C03" }
-func (c03) NumCases(tier string) int {
+func numGenerated(tier string) int {
 	if tier == fw.Thorough {
-		return 60000 + len(witnesses)
+		return 60000
 	}
-	return 4000 + len(witnesses)
+	return 4000
+}
+func numDirVar(tier string) int {
+	if tier == fw.Thorough {
+		return 6000
+	}
+	return 600
+}
+func (c03) NumCases(tier string) int {
+	return len(witnesses) + numGenerated(tier) + numListPairCases() + numDirVar(tier)
 }
 func (c03) Rule() string {
-	return "case = generated schema (objects, interfaces, unions, enums, input objects incl. @oneOf/defaults/recursion, custom scalars) × valid-by-construction operation (fragments, aliases, duplicates, @skip/@include, variables with defaults, literals in lists/objects, list coercion) × coercible variables; self-checked with gqlparser. Oracles: reference executor (independent parser) on (q,v) vs on the normalised operation + rewritten variables for 2 universes whose values hash the coerced arguments; normalised operation valid for gqlparser and for the repository validator; second normalisation is a no-op (print + variables); construction-equivalent variants (same-type inline wrapping, named<->inline fragment, duplicated field, variable renaming, literal->variable) reach the same canonical print. Both the engine's two-pass admission sequence and Request.Normalize's default options. Non-trivial = operation has >=1 of {fragment, variable, directive, duplicate field, literal argument}; distinct by hash of (schema, operation, variables)."
+	return "case = generated schema (objects, interfaces, unions, enums, input objects incl. @oneOf/defaults/recursion, custom scalars) × valid-by-construction operation (fragments, aliases, duplicates, @skip/@include, variables with defaults, literals in lists/objects, list coercion) × coercible variables; self-checked with gqlparser. Oracles: reference executor (independent parser) on (q,v) vs on the normalised operation + rewritten variables for 2 universes whose values hash the coerced arguments; normalised operation valid for gqlparser and for the repository validator; second normalisation is a no-op (print + variables); construction-equivalent variants (same-type inline wrapping, named<->inline fragment, duplicated field, variable renaming, literal->variable) reach the same canonical print. Both the engine's two-pass admission sequence and Request.Normalize's default options. On every case also: the engine's variable mapping covers every variable of the canonicalised operation, injectively and with the client's type; the same operation with its variables renamed to names the canonicalisation itself hands out (a, b, aa, …; own PRNG stream) reaches the same print and canonical variables; every surviving application of a schema-defined directive resolves (rewritten variables substituted) to arguments an application of the original resolves to. Appended directed families: 'listpair' (exhaustive: 6 named types × 14×14 ordered pairs of list/non-null shapes up to depth 2, the same literal — every literal legal at both positions, incl. null items, empty lists, single values coerced to lists — at two/three argument positions) and 'dirvar' (generated operations with variables placed directly on, and inside list/object literals of, arguments of schema-defined directives on fields, inline fragments, spreads and the operation, next to one or two @skip/@include on the same node). Non-trivial = operation has >=1 of {fragment, variable, directive, duplicate field, literal argument}; distinct by hash of (schema, operation, variables)."
 }
 func (c03) Assumptions() []string {
 	return []string{"gqlparser parses/validates correctly the documents judged (cross-checked by construction)", "the reference executor implements the spec's ExecuteSelectionSet/CoerceArgumentValues", "@skip/@include are evaluated at normalisation time: equivalence is required for the request's variable values only", "response keys with the reserved __internal_ prefix are dropped before comparing"}
 }
 func (c03) RequiredCounters(string) []string {
-	return []string{"exec_compared", "idempotence_checked", "variants_compared", "normalized_validated"}
+	return []string{"exec_compared", "idempotence_checked", "variants_compared", "normalized_validated",
+		"mapping_checked", "rename_canonical_compared", "directive_applications_compared",
+		"listpair_operations_with_different_types", "listpair_variable_shared_between_positions",
+		"dirvar_variable_on_surviving_directive", "dirvar_rename_canonical_compared"}
 }
 
 func varsJSON(vals map[string]*gen.Val) []byte {
@@ -150,38 +163,51 @@ func (p c03) runFixed(w witness) fw.Result {
 	caseSpreadDirFact = "false"
 	res := fw.Result{Key: fw.HashKey("fixed", w.Name), Nontrivial: true}
 	res.Sample = map[string]any{"fixed_case": w.Name, "operation": w.Operation, "variables": w.Variables}
+	ss, err := rig.LoadSchemas(w.SDL)
+	if err != nil {
+		res.Broken("fixed case schema: "+err.Error(), map[string]any{"fixed_case": w.Name, "sdl": w.SDL})
+		return res
+	}
+	eng, err := rig.NewAdmissionEngine(ss.Repo)
+	if err != nil {
+		res.Broken("engine construction: "+err.Error(), map[string]any{"fixed_case": w.Name, "sdl": w.SDL})
+		return res
+	}
+	defer eng.Close()
+	p.judgeFixed(&res, ss, eng, w, nil)
+	return res
+}
+
+// judgeFixed judges one fixed (schema, operation, variables) triple on both sequences. It returns
+// the engine sequence's printed result ("" when there is none).
+func (p c03) judgeFixed(resp *fw.Result, ss *rig.Schemas, eng *rig.Engine, w witness, extraDetail map[string]any) (enginePrinted string) {
+	res := resp
 	detail := func(extra map[string]any) map[string]any {
 		m := map[string]any{"fixed_case": w.Name, "sdl": w.SDL, "operation": w.Operation, "operationName": w.OperationName, "variables": w.Variables}
+		for k, v := range extraDetail {
+			m[k] = v
+		}
 		for k, v := range extra {
 			m[k] = v
 		}
 		return m
 	}
-	ss, err := rig.LoadSchemas(w.SDL)
-	if err != nil {
-		res.Broken("fixed case schema: "+err.Error(), detail(nil))
-		return res
-	}
-	eng, err := rig.NewAdmissionEngine(ss.Repo)
-	if err != nil {
-		res.Broken("engine construction: "+err.Error(), detail(nil))
-		return res
-	}
-	defer eng.Close()
 	vmap, _ := decodeVars([]byte(w.Variables))
 	const seed = 12345
 	want, err := execAll(ss, w.Operation, w.OperationName, vmap, seed)
 	if err != nil {
 		res.Broken("fixed case rejected by the reference side: "+err.Error(), detail(nil))
-		return res
+		return ""
 	}
+	setCaseOriginal(ss, w.Operation, w.OperationName, vmap)
+	defer clearCaseOriginal()
 	a := eng.Admit(w.Operation, w.OperationName, []byte(w.Variables))
 	if a.Stage != "" {
 		res.Inconclusive = "admission-refused: " + a.Err
 		res.Count("admission_refused", 1)
-		return res
+		return ""
 	}
-	p.judge(&res, ss, "engine", a.Printed, a.Variables, a.Remap, w.OperationName, want, seed, detail)
+	p.judge(res, ss, "engine", a.Printed, a.Variables, a.Remap, w.OperationName, want, seed, detail)
 	if canonVars, err := rig.VarsForRemapped(a.Variables, a.Remap); err == nil {
 		cv, _ := json.Marshal(canonVars)
 		b := eng.Admit(a.Printed, "", cv)
@@ -194,19 +220,27 @@ func (p c03) runFixed(w witness) fw.Result {
 	}
 	printed2, vars2, err := rig.DefaultNormalize(ss.Repo, w.Operation, w.OperationName, []byte(w.Variables))
 	if err == nil {
-		p.judge(&res, ss, "default", printed2, vars2, nil, "", want, seed, detail)
+		p.judge(res, ss, "default", printed2, vars2, nil, "", want, seed, detail)
 		res.Count("idempotence_checked", 1)
 		printed3, _, err := rig.DefaultNormalize(ss.Repo, printed2, "", vars2)
 		if err == nil && printed3 != printed2 {
 			res.Violate("normalize.idempotence", "second normalisation changes the printed operation", map[string]string{"sequence": "default", "what": "print", "only_fragment_structure": fmt.Sprint(onlyFragmentStructure(printed2, printed3))}, detail(map[string]any{"first": printed2, "second": printed3}))
 		}
 	}
-	return res
+	return a.Printed
 }
 
 func (p c03) Run(c *fw.Ctx, idx int) fw.Result {
 	if idx < len(witnesses) {
 		return p.runFixed(witnesses[idx])
+	}
+	// directed families are appended after the generated cases (the index -> case mapping of the
+	// generated cases is what the pinned witnesses of the known findings refer to)
+	if k := idx - len(witnesses) - numGenerated(c.Tier); k >= 0 {
+		if k < numListPairCases() {
+			return p.runListPair(k)
+		}
+		return p.runDirVar(c, idx)
 	}
 	res := fw.Result{}
 	r := c.Rng(idx, "c03")
@@ -233,9 +267,15 @@ func (p c03) Run(c *fw.Ctx, idx int) fw.Result {
 	}
 	doc, vals := gen.GenOperation(r, schema, op)
 	caseSpreadDirFact = fmt.Sprint(gen.SpreadDirectiveNotForInline(schema, doc))
+	return p.runDoc(c, idx, r, schema, ss, sdl, doc, vals, op.MultiOps, nil)
+}
+
+// runDoc judges one generated (schema, document, variables) case.
+func (p c03) runDoc(c *fw.Ctx, idx int, r *rand.Rand, schema *gen.Schema, ss *rig.Schemas, sdl string, doc *gen.Doc, vals map[string]*gen.Val, multiOps bool, family map[string]any) fw.Result {
+	res := fw.Result{}
 	text := doc.String()
 	opName := ""
-	if op.MultiOps {
+	if multiOps {
 		opName = "Main"
 	}
 	vars := varsJSON(vals)
@@ -245,6 +285,9 @@ func (p c03) Run(c *fw.Ctx, idx int) fw.Result {
 	seed := r.Uint64()
 	detail := func(extra map[string]any) map[string]any {
 		m := map[string]any{"sdl": sdl, "operation": text, "operationName": opName, "variables": string(vars)}
+		for k, v := range family {
+			m[k] = v
+		}
 		for k, v := range extra {
 			m[k] = v
 		}
@@ -264,6 +307,8 @@ func (p c03) Run(c *fw.Ctx, idx int) fw.Result {
 		res.Broken("operation self-check (valid-by-construction operation rejected by the reference side): "+err.Error(), detail(nil))
 		return res
 	}
+	setCaseOriginal(ss, text, opName, vmap)
+	defer clearCaseOriginal()
 
 	// ---- sequence 1: the engine's admission sequence
 	a := eng.Admit(text, opName, vars)
@@ -379,6 +424,54 @@ func (p c03) Run(c *fw.Ctx, idx int) fw.Result {
 				res.Violate("normalize.variant-variables", "construction-equivalent operations ("+vk+") normalise to different canonical variables", map[string]string{"variant": vk}, detail(map[string]any{"variant": vtext, "variant_variables": string(vvars), "canon_original": ref.Canon(anyMap(ov)), "canon_variant": ref.Canon(anyMap(nv)), "print": a.Printed}))
 			}
 		}
+		// ---- renaming invariance with client names that collide with the names the canonicalisation
+		// hands out (a, b, c, …); drawn from a stream of its own
+		if len(doc.Ops[0].Vars) > 0 {
+			vdoc, vvals, renaming := renameCanonical(c.Rng(idx, "c03-rename"), doc, vals)
+			vtext := vdoc.String()
+			vvars := varsJSON(vvals)
+			vd := func(extra map[string]any) map[string]any {
+				m := detail(map[string]any{"variant": vtext, "variant_variables": string(vvars), "renaming": renaming})
+				for k, v := range extra {
+					m[k] = v
+				}
+				return m
+			}
+			vm, _ := decodeVars(vvars)
+			got, err := execAll(ss, vtext, "", vm, seed)
+			switch {
+			case err != nil:
+				res.Broken("variant self-check (rename-canonical): "+err.Error(), vd(nil))
+			case strings.Join(got, "\n") != strings.Join(want, "\n"):
+				res.Broken("variant self-check (rename-canonical): reference results differ, the transformation is not an equivalence", vd(nil))
+			default:
+				va := eng.Admit(vtext, "", vvars)
+				res.Count("rename_canonical_compared", 1)
+				if family != nil {
+					res.Count("dirvar_rename_canonical_compared", 1)
+				}
+				facts := func(m map[string]string) map[string]string {
+					m["variant"] = "rename-canonical"
+					return withCaseFacts(m)
+				}
+				if va.Stage != "" {
+					res.Violate("normalize.rename-refused", "the operation is admitted, the same operation with its variables renamed is refused: "+va.Err, facts(map[string]string{}), vd(nil))
+				} else if va.Printed != a.Printed {
+					res.Violate("normalize.variant-print", "operations that differ only in variable names normalise to different prints", facts(map[string]string{"only_fragment_structure": fmt.Sprint(onlyFragmentStructure(a.Printed, va.Printed))}), vd(map[string]any{"print_original": a.Printed, "print_variant": va.Printed}))
+				} else {
+					// the renamed operation's own result is judged too (valid, mapping, meaning)
+					saved := caseOrig
+					setCaseOriginal(ss, vtext, "", vm)
+					p.judge(&res, ss, "engine", va.Printed, va.Variables, va.Remap, "", want, seed, vd)
+					caseOrig = saved
+					ov, e1 := rig.VarsForRemapped(a.Variables, a.Remap)
+					nv, e2 := rig.VarsForRemapped(va.Variables, va.Remap)
+					if e1 == nil && e2 == nil && ref.Canon(anyMap(ov)) != ref.Canon(anyMap(nv)) {
+						res.Violate("normalize.variant-variables", "operations that differ only in variable names normalise to different canonical variables", facts(map[string]string{}), vd(map[string]any{"canon_original": ref.Canon(anyMap(ov)), "canon_variant": ref.Canon(anyMap(nv)), "print": a.Printed}))
+					}
+				}
+			}
+		}
 	}
 	return res
 }
@@ -451,6 +544,11 @@ func (p c03) judge(res *fw.Result, ss *rig.Schemas, seq, printed string, variabl
 			}
 			res.Violate("normalize.invalid-output", "normalised operation is not valid (repository validator): "+msg, map[string]string{"sequence": seq, "validator": "repo", "rule": classifyGqlErr(msg), "nullability_only_conflict": fmt.Sprint(nullabilityOnlyConflict(msg)), "spread_directive_without_inline_fragment_location": caseSpreadDirFact}, d(nil))
 		}
+	}
+	nviol := len(res.Violations)
+	p.judgeCanonical(res, ss, seq, qd, vm, remap, d)
+	if len(res.Violations) > nviol {
+		return
 	}
 	op := rig.PickOperation(qd, "")
 	var got []string
@@ -530,7 +628,7 @@ func onlyFragmentStructure(a, b string) bool {
 var caseSpreadDirFact = "false"
 
 func classifyGqlErr(msg string) string {
-	for _, k := range []string{"never used", "is not defined", "Unknown argument", "Unknown type", "Cannot query field", "cannot be spread", "conflict", "Expected", "expected type", "must have a selection", "must not have a selection", "Unknown directive", "unused", "not used", "may not be used on INLINE_FRAGMENT", "not allowed on node of kind: INLINE_FRAGMENT"} {
+	for _, k := range []string{"never used", "is not defined", "Unknown argument", "Unknown type", "Cannot query field", "cannot be spread", "conflict", "Expected", "expected type", "must have a selection", "must not have a selection", "Unknown directive", "unused", "not used", "may not be used on INLINE_FRAGMENT", "not allowed on node of kind: INLINE_FRAGMENT", "used in position expecting", "must be unique", "can be only one variable named"} {
 		if strings.Contains(msg, k) {
 			return k
 		}
